@@ -221,8 +221,16 @@ func (r *Reader) initFields() error {
 			}
 			ent.chunkTopIndex = chunkTopIndex
 		}
+		if ent.isDataType() && (ent.Size < 0 || ent.Offset < 0 || ent.ChunkOffset < 0 || ent.ChunkSize < 0 || ent.InnerOffset < 0) {
+			return fmt.Errorf("invalid entry %q: negative size or offset", ent.Name)
+		}
 		if ent.Type == "reg" {
 			lastRegEnt = ent
+		}
+		if ent.isDataType() && lastRegEnt != nil &&
+			(ent.ChunkOffset > lastRegEnt.Size || ent.ChunkSize > lastRegEnt.Size-ent.ChunkOffset) {
+			return fmt.Errorf("invalid entry %q: chunk (offset=%d, size=%d) exceeds the file size %d",
+				ent.Name, ent.ChunkOffset, ent.ChunkSize, lastRegEnt.Size)
 		}
 		if ent.Type == "chunk" {
 			ent.Name = lastPath
